@@ -16,6 +16,10 @@
   * D18: the run-id/version fields are written once per DB *the connection is
         in* when the offset is written (was: keyed by the last queued item's
         parser DB, and skipped altogether when the queue was empty).
+  * D23: MULTI / EXEC are never withheld by the database filter (an EXEC
+        swallowed because the transaction had switched to a blacklisted DB left
+        the sender inside the transaction: everything after it was queued until
+        the next EXEC and a nested MULTI was forwarded as data).
 -/
 import GunYu.Basic.Bytes
 
@@ -118,7 +122,7 @@ def parseStep (c : PCfg) (s : PState) (r : Raw) : PState × POut :=
     | _ => (s, .fail)
   else if c.filterCmd r.cmd then (s, .skip)
   else if r.cmd = bPublish ∧ (r.args.head?.map lower) = some bSentinelHello then (s, .skip)
-  else if s.bypass then (s, .skip)
+  else if s.bypass ∧ r.cmd ≠ bMulti ∧ r.cmd ≠ bExec then (s, .skip)   -- D23 repair: brackets pass the db filter
   else match c.filterCmdKey r.cmd r.args with
     | none => (s, .skip)
     | some a => (s, .emit { cmd := r.cmd, args := a, offset := r.off, db := s.currentDB })
